@@ -644,7 +644,9 @@ class ProgGen:
             ret = "any"
         f = {"name": name, "inline": inline, "ret": ret, "pattern": pat, "shape": shape, "body": body}
         self.fns.append(f)
-        if self.forced_now:
+        if self.forced_now or multi:
+            # functions with a forced feature (capture + binding form, several destructured parameters) are
+            # called from the main expression whatever else is generated
             self.__dict__.setdefault("cap_fns", []).append(f)
         self.forced_now = False
         return L(S("defun-inline" if inline else "defun"), S(name), pat, body)
